@@ -143,8 +143,8 @@ def minimise_pair(case, pa, pb, timeout, budget=120):
     ident = c06.identity_presentation(case)
     # 1. presentation components back to identity
     for p in (pa, pb):
-        for key in ('pad', 'amap', 'S0', 'lab_rot', 'S_given', 'smap', 'S',
-                    'R', 'L', 'ctype'):
+        for key in ('pad', 'amap', 'S0', 'lab_rot', 'S_given', 'fresh',
+                    'smap', 'S', 'R', 'L', 'ctype'):
             if tests[0] >= budget:
                 break
             if p.get(key) == ident.get(key):
